@@ -479,16 +479,17 @@ where
     usize: AsPrimitive<T>,
 {
     match kind {
-        TreeKind::Qwt256 => mk::<T, QWaveletTree<T, RSQVector256, false>>(how, data),
-        TreeKind::Qwt512 => mk::<T, QWaveletTree<T, RSQVector512, false>>(how, data),
-        TreeKind::Qwt256Pfs => mk::<T, QWaveletTree<T, RSQVector256, true>>(how, data),
-        TreeKind::Qwt512Pfs => mk::<T, QWaveletTree<T, RSQVector512, true>>(how, data),
-        TreeKind::Hqwt256 => mk::<T, HuffQWaveletTree<T, RSQVector256, false>>(how, data),
-        TreeKind::Hqwt512 => mk::<T, HuffQWaveletTree<T, RSQVector512, false>>(how, data),
-        TreeKind::Hqwt256Pfs => mk::<T, HuffQWaveletTree<T, RSQVector256, true>>(how, data),
-        TreeKind::Hqwt512Pfs => mk::<T, HuffQWaveletTree<T, RSQVector512, true>>(how, data),
-        TreeKind::Wt => mk::<T, WaveletTree<T, RSWide, false>>(how, data),
-        TreeKind::Hwt => mk::<T, WaveletTree<T, RSWide, true>>(how, data),
+        // through the crate's own aliases (what users write), not the spelled-out instantiations
+        TreeKind::Qwt256 => mk::<T, qwt::QWT256<T>>(how, data),
+        TreeKind::Qwt512 => mk::<T, qwt::QWT512<T>>(how, data),
+        TreeKind::Qwt256Pfs => mk::<T, qwt::QWT256Pfs<T>>(how, data),
+        TreeKind::Qwt512Pfs => mk::<T, qwt::QWT512Pfs<T>>(how, data),
+        TreeKind::Hqwt256 => mk::<T, qwt::HQWT256<T>>(how, data),
+        TreeKind::Hqwt512 => mk::<T, qwt::HQWT512<T>>(how, data),
+        TreeKind::Hqwt256Pfs => mk::<T, qwt::HQWT256Pfs<T>>(how, data),
+        TreeKind::Hqwt512Pfs => mk::<T, qwt::HQWT512Pfs<T>>(how, data),
+        TreeKind::Wt => mk::<T, qwt::WT<T>>(how, data),
+        TreeKind::Hwt => mk::<T, qwt::HWT<T>>(how, data),
     }
 }
 
